@@ -201,14 +201,28 @@ func cellFromCellBlock(b []byte) (*pb.Cell, uint32, error) {
 	}
 
 	kvLen := binary.BigEndian.Uint32(b[0:4])
-	if len(b) < int(kvLen)+4 {
+	if uint64(len(b)) < uint64(kvLen)+4 {
 		return nil, 0, fmt.Errorf(
-			"buffer is too small: expected %d, got %d", int(kvLen)+4, len(b))
+			"buffer is too small: expected %d, got %d", uint64(kvLen)+4, len(b))
+	}
+	// A KeyValue holds at least the lengths of its key and value, the
+	// length of its row, the length of its family, a timestamp and a type.
+	const minKvLen = 4 + 4 + 2 + 1 + 8 + 1
+	if kvLen < minKvLen {
+		return nil, 0, fmt.Errorf("KeyValue is too small: expected at least %d, got %d",
+			minKvLen, kvLen)
 	}
 
 	rowKeyLen := binary.BigEndian.Uint32(b[4:8])
 	valueLen := binary.BigEndian.Uint32(b[8:12])
 	keyLen := binary.BigEndian.Uint16(b[12:14])
+	// check all the lengths against kvLen before they are used for slicing
+	// (in 64 bits, they don't add up to 32 bits when they are made up)
+	if uint64(rowKeyLen)+uint64(valueLen)+4+4 != uint64(kvLen) ||
+		uint64(rowKeyLen) < 2+uint64(keyLen)+1+8+1 {
+		return nil, 0, fmt.Errorf("HBase has lied about KeyValue length: expected %d, got %d",
+			kvLen, 4+4+uint64(rowKeyLen)+uint64(valueLen))
+	}
 	b = b[14:]
 
 	key := b[:keyLen]
@@ -216,6 +230,10 @@ func cellFromCellBlock(b []byte) (*pb.Cell, uint32, error) {
 
 	familyLen := b[0]
 	b = b[1:]
+	if uint64(rowKeyLen) < 2+uint64(keyLen)+1+uint64(familyLen)+8+1 {
+		return nil, 0, fmt.Errorf("HBase has lied about KeyValue length: "+
+			"family of %d bytes doesn't fit in a key of %d bytes", familyLen, rowKeyLen)
+	}
 
 	family := b[:familyLen]
 	b = b[familyLen:]
@@ -249,6 +267,11 @@ func cellFromCellBlock(b []byte) (*pb.Cell, uint32, error) {
 }
 
 func deserializeCellBlocks(b []byte, cellsLen uint32) ([]*pb.Cell, uint32, error) {
+	// a cell takes at least 4 + 18 bytes, don't trust a count that can't be right
+	if uint64(cellsLen)*22 > uint64(len(b)) {
+		return nil, 0, fmt.Errorf("buffer is too small for %d cells: got %d bytes",
+			cellsLen, len(b))
+	}
 	cells := make([]*pb.Cell, cellsLen)
 	var readLen uint32
 	for i := 0; i < int(cellsLen); i++ {
